@@ -439,7 +439,9 @@ Section(c, l) == {q \in DOMAIN c : Len(q) > Len(l) /\ IsPrefixSeq(l, q)}
 APop == /\ pc = "pop"
         /\ IF ~IsLeaf(cs, lvl) THEN Fail("crash")
            ELSE LET sub == IF CfgHas(cfg, lvl \o <<"subcommand">>) THEN cfg[lvl \o <<"subcommand">>].s ELSE ""
-                    c1 == DelKeys(cfg, {lvl \o <<"config">>, lvl \o <<"subcommand">>})
+                    \* pop removes the key WITH everything below it: for a class whose selected method is itself called
+                    \* config, that is the method's whole section (deviation "sub-named-config", reachable since 7c4a568)
+                    c1 == DelKeys(cfg, {q \in DOMAIN cfg : IsPrefixSeq(lvl \o <<"config">>, q)} \cup {lvl \o <<"subcommand">>})
                 IN IF LvlKind(cs, lvl) = "cls" /\ sub # ""
                    THEN /\ mcfg' = DelKeys(LevelKw(c1, lvl \o <<sub>>), {"config"})
                         /\ cfg' = DelKeys(c1, Section(c1, lvl \o <<sub>>))
@@ -516,7 +518,7 @@ OwnParameters == (Done /\ out = "ok") =>
              /\ DOMAIN calls[Len(calls)].kw = ParamNames(LvlParams(cs, lvl))
              /\ Len(calls) = 2 => DOMAIN calls[1].kw = ParamNames(LvlParams(cs, FrontSeq(lvl)))
 ReturnPassedThrough == (Done /\ out = "ok") => ret = "ret:" \o calls[Len(calls)].name
-NeverCrashes == out = "crash" => (HiddenButRequiredByPython \/ MethodParameterNamedConfig)
+NeverCrashes == out = "crash" => (HiddenButRequiredByPython \/ MethodParameterNamedConfig \/ SubNamedConfigSelected)
 \* the clauses of the property, on the derived parser shape (every level of the component; once per case)
 ShapeLaws == pc = "defaults" => \A l \in {x \in AllLevels : LvlKind(cs, x) # "none"} : \A i \in 1..Len(LvlParams(cs, l)) :
                LET p == LvlParams(cs, l)[i] IN
